@@ -319,7 +319,7 @@ func (b *wb) attestations(id int, holder int) []int {
 
 // ---- defects and decorations ------------------------------------------------------------------
 
-var defectKinds = []string{"none", "wrongkey", "tamper", "aud", "resource", "ability", "nonowner", "expired", "tooearly", "algcode", "revoke", "missing", "policy", "decoys", "permute", "nbf-ok", "dup", "parsefail"}
+var defectKinds = []string{"none", "wrongkey", "tamper", "aud", "resource", "ability", "nonowner", "expired", "tooearly", "algcode", "revoke", "missing", "policy", "decoys", "permute", "nbf-ok", "dup", "parsefail", "deadend"}
 
 func applyDefect(r *rand.Rand, w *AWorld, kind string) {
 	n := len(w.Tokens)
@@ -415,6 +415,129 @@ func applyDefect(r *rand.Rand, w *AWorld, kind string) {
 		}
 	case "decoys":
 		addDecoys(r, w)
+	case "deadend":
+		addDeadEnd(r, w)
+	}
+}
+
+// addDeadEnd puts, in front of a real proof of some token, a perfectly valid delegation of the same
+// capability that leads nowhere: its issuer does not own the resource and either has no proofs or only
+// an expired one. The search must go on to the next proof after this branch fails one level deeper.
+func addDeadEnd(r *rand.Rand, w *AWorld) {
+	var hosts []int
+	for i := range w.Tokens {
+		for _, p := range w.Tokens[i].Prfs {
+			if p >= 0 && p < len(w.Tokens) && len(w.Tokens[p].Caps) > 0 && w.Tokens[p].Caps[0].Can != "ucan/attest" {
+				hosts = append(hosts, i)
+				break
+			}
+		}
+	}
+	if len(hosts) == 0 {
+		return
+	}
+	b := &wb{r, w}
+	h := hosts[r.Intn(len(hosts))]
+	var real []int
+	for _, p := range w.Tokens[h].Prfs {
+		if p >= 0 && p < len(w.Tokens) && len(w.Tokens[p].Caps) > 0 && w.Tokens[p].Caps[0].Can != "ucan/attest" {
+			real = append(real, p)
+		}
+	}
+	src := w.Tokens[real[r.Intn(len(real))]]
+	x := b.keyPrincipal(src.Iss, w.Tokens[h].Iss)
+	d := AToken{Iss: x, Aud: w.Tokens[h].Iss, Signer: x, Intact: true, AlgOk: true, Caps: append([]ACap(nil), src.Caps...), Exp: b.exp(), Nonce: fmt.Sprintf("deadend%d", r.Intn(1000))}
+	if r.Intn(2) == 0 {
+		// one level more: the dead end cites an expired grant
+		e := w.Now - farFuture
+		y := b.keyPrincipal(x)
+		deeper := AToken{Iss: y, Aud: x, Signer: y, Intact: true, AlgOk: true, Caps: append([]ACap(nil), src.Caps...), Exp: &e, Nonce: "deeper"}
+		did := b.addToken(deeper)
+		d.Prfs, d.Inline = []int{did}, []bool{true}
+	}
+	id := b.addToken(d)
+	ht := &w.Tokens[h]
+	pos := 0
+	if r.Intn(4) == 0 {
+		pos = r.Intn(len(ht.Prfs) + 1)
+	}
+	ht.Prfs = append(ht.Prfs[:pos], append([]int{id}, ht.Prfs[pos:]...)...)
+	ht.Inline = append(ht.Inline[:pos], append([]bool{true}, ht.Inline[pos:]...)...)
+	renumber(w)
+}
+
+// renumber restores "proofs have smaller ids than the token citing them" after tokens were appended out
+// of order, rewriting every reference to a token id.
+func renumber(w *AWorld) {
+	n := len(w.Tokens)
+	newID := make([]int, n)
+	for i := range newID {
+		newID[i] = -1
+	}
+	next := 0
+	var visit func(i int)
+	visit = func(i int) {
+		if newID[i] >= 0 || newID[i] == -2 {
+			return
+		}
+		newID[i] = -2
+		for _, p := range w.Tokens[i].Prfs {
+			if p >= 0 && p < n {
+				visit(p)
+			}
+		}
+		// attestation caveats name the token they attest: keep those before as well when possible
+		newID[i] = next
+		next++
+	}
+	// the invocation(s) last
+	last := map[int]bool{w.Inv: true}
+	for _, i := range w.Invs {
+		last[i] = true
+	}
+	for i := 0; i < n; i++ {
+		if !last[i] {
+			visit(i)
+		}
+	}
+	for i := 0; i < n; i++ {
+		visit(i)
+	}
+	mp := func(x int) int {
+		if x >= 0 && x < n {
+			return newID[x]
+		}
+		return x
+	}
+	out := make([]AToken, n)
+	for i, t := range w.Tokens {
+		t.ID = newID[i]
+		t.Prfs = append([]int(nil), t.Prfs...)
+		for k := range t.Prfs {
+			t.Prfs[k] = mp(t.Prfs[k])
+		}
+		t.Caps = append([]ACap(nil), t.Caps...)
+		for c := range t.Caps {
+			nb := append([][2]int(nil), t.Caps[c].Nb...)
+			for k := range nb {
+				if nb[k][0] == 0 {
+					nb[k][1] = mp(nb[k][1])
+				}
+			}
+			t.Caps[c].Nb = nb
+		}
+		out[newID[i]] = t
+	}
+	w.Tokens = out
+	w.Inv = mp(w.Inv)
+	for k := range w.Invs {
+		w.Invs[k] = mp(w.Invs[k])
+	}
+	for k := range w.Resolver {
+		w.Resolver[k] = mp(w.Resolver[k])
+	}
+	for k := range w.Revoked {
+		w.Revoked[k] = mp(w.Revoked[k])
 	}
 }
 
